@@ -151,9 +151,11 @@ class Model:
             self.seq += 1
             seq = self.seq
         fault = self.world.faults.get(path)
-        if fault in ("err", "errx", "errs"):
+        if fault in ("err", "errx", "errs", "errpp", "errsh"):
             exp.errors.append({
-                "path": path, "kind": "err", "message": error_message(path),
+                "path": path, "kind": "err",
+                "message": "E@shared" if fault == "errsh"
+                else error_message(path),
                 "first": node.pos,
                 "group": frozenset(n.pos for n in nodes),
                 "ext": error_extensions(path) if fault == "errx" else None,
